@@ -49,10 +49,27 @@ def strip_comments(src):
     return "".join(out)
 
 
-def grep_forbidden():
+def import_closure(modules):
+    """files of the given modules and everything of this project they import (transitively)"""
+    seen, todo = set(), list(modules)
+    while todo:
+        mod = todo.pop()
+        if mod in seen:
+            continue
+        path = os.path.join(LEAN, mod.replace(".", "/") + ".lean")
+        if not os.path.exists(path):
+            continue
+        seen.add(mod)
+        for line in open(path):
+            m = re.match(r"\s*import\s+(PyFV[\w.]*)", line)
+            if m:
+                todo.append(m.group(1))
+    return [os.path.join(LEAN, m.replace(".", "/") + ".lean") for m in sorted(seen)]
+
+
+def grep_forbidden(modules):
     hits = []
-    files = glob.glob(os.path.join(LEAN, "PyFV", "**", "*.lean"), recursive=True) + \
-        [os.path.join(LEAN, "PyFV.lean"), os.path.join(LEAN, "Driver.lean")]
+    files = import_closure(list(modules) + ["PyFV", "PyFV.Gen.Limiters"]) + [os.path.join(LEAN, "Driver.lean")]
     for f in files:
         body = strip_comments(open(f).read())
         for ln, line in enumerate(body.split("\n"), 1):
@@ -99,9 +116,10 @@ def audit(modules):
     out = p.stdout + p.stderr
     res = {}
     # parse: "'Name' depends on axioms: [a, b]" or "'Name' does not depend on any axioms"
-    for m in re.finditer(r"'([^']+)' depends on axioms: \[([^\]]*)\]", out.replace("\n ", " ")):
+    flat = out.replace("\n ", " ")
+    for m in re.finditer(r"^'(.+?)' depends on axioms: \[([^\]]*)\]", flat, re.M):
         res[m.group(1)] = [a.strip() for a in m.group(2).split(",") if a.strip()]
-    for m in re.finditer(r"'([^']+)' does not depend on any axioms", out):
+    for m in re.finditer(r"^'(.+?)' does not depend on any axioms", flat, re.M):
         res[m.group(1)] = []
     obs = []
     for n in names:
@@ -174,20 +192,24 @@ def main():
         gen_status[name] = (p.stdout.strip().split("\n")[-1] if p.returncode == 0 else f"FAILED: {p.stderr[-400:]}")
     # 2. build
     modules = list(prop.MODULES)
-    ok_build, build_out = lake_build(["PyFV"] + modules)
+    ok_build, build_out = lake_build(["PyFV", "PyFV.Gen.Limiters"])     # model + what the driver imports
+    ok_props, props_out = lake_build(modules)
     broken = []
     if not ok_build:
         errs = [l for l in build_out.split("\n") if "error" in l][:8]
-        log("lean build failed:\n  " + "\n  ".join(errs))
+        log("lean build of the model failed:\n  " + "\n  ".join(errs))
+    if not ok_props:
+        errs = [l for l in props_out.split("\n") if "error" in l][:8]
+        log("lean build of the property theorems failed:\n  " + "\n  ".join(errs))
     # 3. audit
     obligations, _ = audit(modules)
     for o in obligations:
         if not o["ok"]:
             broken.append({"kind": "obligation", "name": o["name"], "error": o["error"]})
-    forb = grep_forbidden()
+    forb = grep_forbidden(modules)
     for h in forb:
         broken.append({"kind": "forbidden-token", "name": h, "error": "forbidden token in Lean sources"})
-    if tier == "thorough" and ok_build:
+    if tier == "thorough" and ok_build and ok_props:
         p = subprocess.run(["lake", "env", "leanchecker"] + modules, cwd=LEAN, capture_output=True, text=True)
         if p.returncode != 0:
             broken.append({"kind": "leanchecker", "name": " ".join(modules), "error": (p.stdout + p.stderr)[-400:]})
